@@ -102,12 +102,14 @@ SUB = [
     {"op": "notes_text", "text": "n1"},
     {"op": "target_slide", "to": 0},
     {"op": "target_slide", "to": None},
+    {"op": "core_props"},
     {"op": "save_reopen"},
 ]
 
 CORPUS_INIT = "corpus:features/steps/test_files/test.pptx"
+NOCORE_INIT = "corpus:tests/test_files/no-core-props.pptx"   # gains a default core-properties part on first access
 HANDOUT_INIT = "corpus:features/steps/test_files/mst-slide-layouts.pptx"   # handout master -> its own theme part
-INITS = ["default", "out_of_order", "non_contiguous", CORPUS_INIT, "rich", "names_1_5_3", HANDOUT_INIT]
+INITS = ["default", "out_of_order", "non_contiguous", CORPUS_INIT, "rich", "names_1_5_3", HANDOUT_INIT, NOCORE_INIT]
 
 # content types the standard assigns to the kinds of part the alphabet creates, by part-name pattern
 CT = "application/vnd.openxmlformats-officedocument."
@@ -268,13 +270,14 @@ def run(ctx):
     if ctx.thorough:
         explorer.explore(ctx, System(["default", "rich"], _alphabet_full), 3, name="full-alphabet/depth3")
         explorer.explore(ctx, System(irregular + cor, _alphabet_full), 2, name="full-alphabet/depth2")
-        explorer.explore(ctx, System(irregular, _alphabet_sub), 4, name="cache-sensitive-subalphabet")
+        explorer.explore(ctx, System(irregular + [NOCORE_INIT], _alphabet_sub), 4, name="cache-sensitive-subalphabet")
         explorer.explore(ctx, System(["default", "rich"], _alphabet_sub), 3, name="cache-sensitive-subalphabet/other-decks")
     else:
         explorer.explore(ctx, System(gen, _alphabet_full), 2, name="full-alphabet")
         explorer.explore(ctx, System(cor, _alphabet_full), 1, name="full-alphabet/corpus-decks")
-        explorer.explore(ctx, System(["default", "out_of_order", "non_contiguous", "rich", "names_1_5_3"], _alphabet_sub), 3,
+        explorer.explore(ctx, System(["out_of_order", "non_contiguous", "names_1_5_3", NOCORE_INIT], _alphabet_sub), 3,
                          name="cache-sensitive-subalphabet")
+        explorer.explore(ctx, System(["default", "rich"], _alphabet_sub), 2, name="cache-sensitive-subalphabet/other-decks")
     single = [op for op, s in ctx.outcomes.items() if len(s) == 0]
     if single:
         from mc.core.run import HarnessError
